@@ -4,8 +4,8 @@ from props import codegen_common as cg
 from props import c01
 
 LEVEL = 'proof'
-MODULES = ['Pysmi.Props.C03', 'Pysmi.Props.C03Time', 'Pysmi.Props.C03Records', 'Pysmi.Pins.SkelC03']
-LAKE_TARGETS = ['Pysmi.Props.C03', 'Pysmi.Props.C03Time', 'Pysmi.Props.C03Records', 'Pysmi.Pins.SkelC03']
+MODULES = ['Pysmi.Props.C03', 'Pysmi.Props.C03Time', 'Pysmi.Props.C03Records', 'Pysmi.Props.C03Names', 'Pysmi.Pins.SkelC03']
+LAKE_TARGETS = ['Pysmi.Props.C03', 'Pysmi.Props.C03Time', 'Pysmi.Props.C03Records', 'Pysmi.Props.C03Names', 'Pysmi.Pins.SkelC03']
 THEOREMS = ['Pysmi.Pins.SkelC03.pin_intermediateGenCode', 'Pysmi.Pins.SkelC03.pin_genRevisions', 
     'Pysmi.Symtab.C03_order_is_perm',
     'Pysmi.Symtab.inv_regDecl',
@@ -21,6 +21,12 @@ THEOREMS = ['Pysmi.Pins.SkelC03.pin_intermediateGenCode', 'Pysmi.Pins.SkelC03.pi
     'Pysmi.Records.C03_record_fields',
     'Pysmi.Records.C03_clause_values',
     'Pysmi.Records.C03_clause_tags',
+    'Pysmi.Names.C03_trans_no_hyphen',
+    'Pysmi.Names.C03_trans_idempotent',
+    'Pysmi.Names.C03_trans_only_hyphens',
+    'Pysmi.Names.C03_trans_injective',
+    'Pysmi.Names.C03_trans_collision_witness',
+    'Pysmi.Names.C03_keys_nodup',
 ]
 TECHNIQUE = ('Lean 4 invariant proof that the emission order of the symbol pass is a duplicate-free permutation of the declared names; '
              'theorems about a model of genTime (CPython strptime regular expression with backtracking, calendar check, glibc %Y) for every date; '
@@ -29,7 +35,7 @@ TECHNIQUE = ('Lean 4 invariant proof that the emission order of the symbol pass 
              'against the generator\'s declarations (keys, class, node type, status, access, units, revisions)')
 LEVEL_TEXT = ('Proved in Lean for any number and mix of declarations: when the symbol pass succeeds the list from which the JSON (and '
               'pysnmp) document is emitted is a duplicate-free permutation of the declared (renamed) symbol names - nothing dropped, nothing '
-              'duplicated; the emission loop stores each record under its own name. Revision data: for every existing date and time of day a '
+              'duplicated; the emission loop stores each record under its own name; the renaming itself (transOpers, compared on drawn names) touches hyphens only, position by position, and keeps names without an underscore apart (C03_trans_only_hyphens, C03_trans_injective, C03_keys_nodup; with underscores a-b and a_b share a key: C03_trans_collision_witness). Revision data: for every existing date and time of day a '
               'well-formed YYYYMMDDHHMMZ stamp is rendered as that date, the short form YYMMDDHHMMZ as 19YY (C03_revision_long/short), and every '
               'other text gives the dummy date or the rendering of an existing date (C03_revision_total); ASCII stamps (CPython\'s \\d also '
               'accepts other Unicode digits: not modelled). Per-kind attribute copying: decided by the kernel over tables regenerated from the Python AST of the parser actions and the '
@@ -228,8 +234,88 @@ def custom_template(backend):
         shutil.rmtree(d, ignore_errors=True)
 
 
+HYPHEN_MIB = """HYPHEN-%(n)d-MIB DEFINITIONS ::= BEGIN
+IMPORTS OBJECT-TYPE, enterprises FROM SNMPv2-SMI TEXTUAL-CONVENTION FROM SNMPv2-TC;
+%(ty)s ::= INTEGER (0..5)
+%(tc)s ::= TEXTUAL-CONVENTION STATUS current DESCRIPTION "d" SYNTAX OCTET STRING (SIZE (0..7))
+%(o1)s OBJECT-TYPE SYNTAX %(ty)s MAX-ACCESS read-only STATUS current DESCRIPTION "d" ::= { enterprises %(a)d 1 }
+%(o2)s OBJECT-TYPE SYNTAX %(tc)s MAX-ACCESS read-only STATUS current DESCRIPTION "d" ::= { enterprises %(a)d 2 }
+%(node)s OBJECT IDENTIFIER ::= { enterprises %(a)d 3 }
+END
+"""
+
+
+def hyphen_names(rng):
+    def word(first):
+        w = first + ''.join(rng.choice('abcxyz019') for _ in range(rng.randint(1, 4)))
+        for _ in range(rng.randint(0, 2)):
+            w += '-' + ''.join(rng.choice('abcxyz019') for _ in range(rng.randint(1, 3)))
+        return w
+    return {'ty': word(rng.choice('TUV')), 'tc': word(rng.choice('WXY')), 'o1': word('p'), 'o2': word('q'), 'node': word('n')}
+
+
+def hyphen_failures(names, n=1, a=77):
+    """every entry of the JSON document is keyed by the symbol's name with '-' as '_', carries that same name inside, and references to
+    types use it too - alike for all kinds of symbols (the names are given: replayable)"""
+    from impl import pipeline
+    import json
+    text = HYPHEN_MIB % dict(names, n=n, a=a)
+    mn = 'HYPHEN-%d-MIB' % n
+    st, out, _ = pipeline.compile_set({mn: text}, backend='json')
+    if str(st.get(mn)) != 'compiled':
+        return ['%s: %s (%s)' % (mn, st.get(mn), getattr(st.get(mn), 'error', None))]
+    doc = json.loads(out[mn])
+    bad = []
+    j = {k: v.replace('-', '_') for k, v in names.items()}
+    for k, v in j.items():
+        rec = doc.get(v)
+        if rec is None:
+            bad.append('%s: no entry %s for %s' % (mn, v, names[k]))
+        elif rec.get('name') != v:
+            bad.append('%s: entry %s carries the name %r' % (mn, v, rec.get('name')))
+    for o, t in (('o1', 'ty'), ('o2', 'tc')):
+        got = ((doc.get(j[o]) or {}).get('syntax') or {}).get('type')
+        if got != j[t]:
+            bad.append('%s: %s refers to its type as %r, the entry is %s' % (mn, j[o], got, j[t]))
+    return bad
+
+
+def names_stream(ctx):
+    """IntermediateCodeGen.transOpers on drawn names (letters, digits, hyphens, now and then an underscore) vs Names.trans"""
+    from pysmi.codegen.intermediate import IntermediateCodeGen
+    res = ctx.res
+    rng = __import__('random').Random(ctx.seed * 77 + 3)
+    names = ['a-b', 'a_b', 'x', '-', '--', '', 'My-Type-2']
+    for _ in range(200 if ctx.tier == 'quick' else 5000):
+        names.append(''.join(rng.choice('abzAZ09--_' if rng.random() < 0.2 else 'abcxyzABZ0189---') for _ in range(rng.randint(1, 12))))
+    got = [IntermediateCodeGen.transOpers(n) for n in names]
+    for n, g in zip(names, got):
+        res.case(('trans', n), '-' in n)
+        res.count('trans-names')
+        if '-' in g or len(g) != len(n) or any(a != b and not (a == '-' and b == '_') for a, b in zip(n, g)):
+            res.oracle_failures.append({'key': 'renamed', 'what': 'transOpers(%r) = %r: more than hyphens to underscores' % (n, g), 'input': {'trans_name': n}})
+    if ctx.model is not None:
+        out = ctx.model.batch([{'op': 'trans', 'names': names}])[0]
+        for n, g, m in zip(names, got, out.get('keys', [])):
+            if g != m:
+                res.corr_failures.append({'what': 'transOpers differs from Names.trans', 'name': n, 'impl': g, 'model': m})
+        if len(out.get('keys', [])) != len(names):
+            res.corr_failures.append({'what': 'trans op returned %d keys for %d names' % (len(out.get('keys', [])), len(names))})
+
+
 def run(ctx):
     res = ctx.res
+    names_stream(ctx)
+    hrng = __import__('random').Random(ctx.seed * 31 + 5)
+    for i in range(12 if ctx.tier == 'quick' else 200):
+        names = hyphen_names(hrng)
+        if len(set(v.replace('-', '_') for v in names.values())) < len(names):
+            continue
+        res.case(('hyphen-names', tuple(sorted(names.items()))), True)
+        res.count('hyphen-names')
+        bad = hyphen_failures(names, n=i)
+        if bad:
+            res.oracle_failures.append({'key': 'own-record', 'what': bad[0], 'input': {'hyphen_names': names, 'n': i}})
     res.rule = ('module sets from the shared generator (all ten symbol-producing declaration kinds, any mix, shuffled order, with and '
                 'without texts, nasty texts: backslash sequences, apostrophes, non-ASCII, 130-character words); JSON backend only; '
                 'non-trivial = at least 3 declarations; distinct by generated text')
@@ -269,6 +355,14 @@ def search(ctx):
 def replay(payload):
     if 'custom_template' in payload['input']:
         bad = custom_template(payload['input']['custom_template'])
+        return {'fails': bool(bad), 'what': bad}
+    if 'trans_name' in payload['input']:
+        from pysmi.codegen.intermediate import IntermediateCodeGen
+        n = payload['input']['trans_name']
+        g = IntermediateCodeGen.transOpers(n)
+        return {'fails': g != n.replace('-', '_'), 'what': g}
+    if 'hyphen_names' in payload['input']:
+        bad = hyphen_failures(payload['input']['hyphen_names'], n=payload['input'].get('n', 1))
         return {'fails': bool(bad), 'what': bad}
     if 'stamp' in payload['input']:
         from pysmi.codegen.jsondoc import JsonCodeGen
